@@ -80,7 +80,12 @@ structure Transport where
   law : ∀ {inp out}, LawAbiding inp → run inp = .ok out → LawAbiding out
   range : ∀ {inp out}, LawAbiding inp → run inp = .ok out → span out = span inp
 
-/-- totality of a transport on law-abiding input (the half that D10-type deadlocks break) -/
+/-- totality of a transport on the law-abiding inputs that satisfy `P`, with `Q` guaranteed of the output (`P`
+is the decidable domain of the layer theorem behind the transport: e.g. `plainStreamB` for the rechunker) -/
+def Transport.TotalOn (P Q : List Chunk → Prop) (t : Transport) : Prop :=
+  ∀ inp, LawAbiding inp → P inp → ∃ out, t.run inp = .ok out ∧ Q out
+
+/-- unconditional totality (holds of `ident`, `concat`; NOT of the guarded transports) -/
 def Transport.Total (t : Transport) : Prop := ∀ inp, LawAbiding inp → ∃ out, t.run inp = .ok out
 
 /-- the streams of the dependencies of one plugin, all covering the run `R` -/
@@ -105,10 +110,6 @@ structure Aligner where
   spec : ∀ {R ins out}, ins ≠ [] → StreamsOK R ins → run ins = .ok out →
     Aligned R out ∧ out.map rows = ins.map rows
 
-/-- totality for plugins with `k` dependencies (the half that D9 / D16 break for `Plugin.iter`) -/
-def Aligner.Total (a : Aligner) (k : Nat) : Prop :=
-  ∀ R ins, ins.length = k → ins ≠ [] → StreamsOK R ins → ∃ out, a.run ins = .ok out
-
 /-- A plugin kind: its chunked semantics on an aligned partition (`chunked`: one stream per
 dependency in, one stream per output out) and its whole-run meaning on unchunked rows. -/
 structure Kernel where
@@ -123,9 +124,6 @@ def ChunkHom (k : Kernel) : Prop :=
   ∀ (R : Int × Int) (ins outs : List (List Chunk)), ins.length = k.nIn → Aligned R ins →
     k.chunked ins = .ok outs →
     outs.length = k.nOut ∧ StreamsOK R outs ∧ outs.map rows = k.whole (ins.map rows)
-
-def Kernel.Total (k : Kernel) : Prop :=
-  ∀ R ins, ins.length = k.nIn → Aligned R ins → ∃ outs, k.chunked ins = .ok outs
 
 /-! ## 3. plugin graphs, plans, `exec` and `whole` -/
 
@@ -173,6 +171,16 @@ def Node.step (n : Node) (ins : List (List Chunk)) : Except Err (List (List Chun
   match n.aligner.run ins with
   | .error e => .error e
   | .ok al => n.kernel.chunked al
+
+/-- **Totality of one node on typed inputs.**  `P d s` is the (decidable) stream type of data type `d`.  For every
+assignment `σ` of law-abiding streams over `R` of the right types to the dependencies, the edge transports
+succeed, the node (aligner, then kernel) succeeds on what they deliver, and the outputs have their types.
+This is the shape in which the layer theorems give totality: C07 on `plainStreamB`, C08 on `iterGuardB` +
+`passesSufficeB`, … — NOT for all law-abiding inputs (D9, D16, `Chunk.merge` of unequal row counts). -/
+def NodeTotalOn (edge : String → Transport) (R : Int × Int) (P : String → List Chunk → Prop) (n : Node) : Prop :=
+  ∀ σ : String → List Chunk, (∀ d ∈ n.deps, LawAbiding (σ d) ∧ span (σ d) = some R ∧ P d (σ d)) →
+    ∃ ins outs, mapE (fun d => (edge d).run (σ d)) n.deps = .ok ins ∧ n.step ins = .ok outs ∧
+      outs.length = n.provides.length ∧ ∀ p ∈ n.provides.zip outs, P p.1 p.2
 
 /-- a stored output is taken from storage, whatever the plugin computed for it -/
 def override (stored : List (String × List Chunk)) : List String → List (List Chunk) → List (List Chunk)
@@ -390,7 +398,11 @@ def SubOK (sub : Chunk → List Chunk) (g : Row → Option Row) : Prop :=
 /-- `ExhaustPlugin._fetch_chunk`: everything is concatenated before the first (only) call -/
 def concatAll : List Chunk → List Chunk
   | [] => []
-  | c :: cs => [{ c with stop := lastStop c.stop cs, rows := rows (c :: cs) }]
+  | c :: cs =>
+    [{ c with stop := lastStop c.stop cs, rows := rows (c :: cs),
+              superrun := (match c.runId with           -- `Chunk.concatenate` rebuilds the default `{run_id: (start, end)}`
+                | some rid => [⟨rid, c.start, lastStop c.stop cs⟩]
+                | none => c.superrun) }]
 
 /-- exhaust: a single call on the whole run; a second call is `RuntimeError` -/
 def exhaustKernel (w : List Row → List Row) (out : String) : Kernel where
